@@ -91,7 +91,8 @@ Recover(S) == /\ phase = "split" /\ S \in Subsets
 \* (also right after a combination with a substituted partial -- one that failed or did not verify: the next one must be
 \*  judged on its own, whatever the earlier call left behind in the implementation)
 Combine(S, sub) == /\ \/ phase \in {"split", "rec"}
-                      \/ phase = "done" /\ obs.kind = "combine" /\ obs.sub.kind # "none"
+                      \/ phase \in {"done", "replayed"}               \* a further combination in the same process (after a failed
+                                                                    \* or an honest one): judged on its own like the first
                    /\ S \in Subsets /\ sub \in Subs(S)
                    /\ phase' = "done" /\ UNCHANGED <<n, t>>
                    /\ obs' = [kind |-> "combine", S |-> S, sub |-> sub,
